@@ -96,7 +96,8 @@ type Config struct {
 	Marshaler string  `json:"marshaler"` // json | custom
 	LKLayers  []uint8 `json:"lk_layers,omitempty"`
 	// Cmp "scaled": the loader is given a KeyCompare that returns 3x the default result
-	// (only the sign of a comparison is meaningful).
+	// (only the sign of a comparison is meaningful). Cmp "reversed": the tree is configured with the REVERSE of the
+	// default order (a custom order over built-in key types); the key universe is then listed in that order.
 	Cmp string `json:"cmp,omitempty"`
 	// Big > 0: the key universe is a dense run of Big keys (instead of the ~60 hand-picked ones), so that
 	// histories reach the heights that only sizes in the hundreds allow (height 2 at the default branch factor 16).
@@ -418,6 +419,9 @@ func (c Config) RefCompare(a, b interface{}) int {
 	if err != nil {
 		panic(err)
 	}
+	if c.Cmp == "reversed" {
+		return -r
+	}
 	return r
 }
 
@@ -430,10 +434,13 @@ func (c Config) Pool() []interface{} {
 		out := make([]interface{}, len(c.LKLayers))
 		for i, l := range c.LKLayers {
 			out[i] = LK{K: i, L: l}
+			if c.Cmp == "reversed" {
+				out[i] = LK{K: -i, L: l} // listed in the configured (reversed) order
+			}
 		}
 		return out
 	}
-	ck := fmt.Sprintf("%s/%d/%s/%d", c.Key, c.BF, c.Marshaler, c.Big)
+	ck := fmt.Sprintf("%s/%d/%s/%d/%s", c.Key, c.BF, c.Marshaler, c.Big, c.Cmp)
 	if v, ok := poolCache.Load(ck); ok {
 		return v.([]interface{})
 	}
